@@ -13,8 +13,9 @@
 #include "dump.h"
 
 
-#define NBODIES 4
-static const char *BODYN[NBODIES] = { "P1 read/query/write/free", "P2 build/set/merge/free", "P3 layered read with options", "P4 malformed file" };
+#define NBODIES 5
+static const char *BODYN[NBODIES] = { "P1 read/query/write/free", "P2 build/set/merge/free", "P3 layered read with options", "P4 malformed file",
+                                       "P5 layered read on the defaults (even instance: drop-ins only, no configuration name; odd: two directories)" };
 
 typedef struct { int body; int instance; char dir[300]; sbuf out; } tctx;
 /* per-instance parameters: shared static state inside the library only becomes visible when the threads pass different data */
@@ -54,6 +55,25 @@ static void body_prepare(tctx *t, int instance)
     sb_printf(&c, "where=DECOY\ndecoy=1\n"); snprintf(rel, sizeof rel, "usr/lib/proj/%s.%s", B_NAME[!v], B_SFX[!v]); b_mkfile(t->dir, rel, c.s);
     snprintf(rel, sizeof rel, "usr/lib/proj/%s.%s", nm, B_SFX[!v]); b_mkfile(t->dir, rel, c.s);
     snprintf(rel, sizeof rel, "etc/proj/%s.%s.d/30-c.%s", nm, sf, B_SFX[!v]); b_mkfile(t->dir, rel, c.s); sb_free(&c);
+  } else if (t->body == 4) {
+    /* no CONFIG_DIRS / PARSING_DIRS option: the process-wide defaults decide which drop-in directories are looked at. Each tree has
+     * the right drop-in directory of its own mode and, as a decoy, the one the other mode would use. */
+    char cmd[1600]; sbuf c = {0};
+    if (!v) {
+      snprintf(cmd, sizeof cmd, "mkdir -p %s/usr/lib/proj.d %s/etc/proj.d %s/etc/proj.conf.d %s/run", t->dir, t->dir, t->dir, t->dir);
+      if (system(cmd) != 0) mc_die("mkdir");
+      sb_printf(&c, "where=vendor-%s\n[S]\nk=10-%s\n", tag, tag); b_mkfile(t->dir, "usr/lib/proj.d/10-a.conf", c.s); sb_reset(&c);
+      sb_printf(&c, "where=etc-%s\nextra=%s\n", tag, tag); b_mkfile(t->dir, "etc/proj.d/20-b.conf", c.s); sb_reset(&c);
+      sb_printf(&c, "where=DECOY\ndecoy=1\n"); b_mkfile(t->dir, "etc/proj.conf.d/30-c.conf", c.s);
+    } else {
+      snprintf(cmd, sizeof cmd, "mkdir -p %s/usr/etc/app.cfg.d %s/etc/app.cfg.d %s/etc/app.d", t->dir, t->dir, t->dir);
+      if (system(cmd) != 0) mc_die("mkdir");
+      sb_printf(&c, "where=main-%s\n[S]\nk=main-%s\n", tag, tag); b_mkfile(t->dir, "usr/etc/app.cfg", c.s); sb_reset(&c);
+      sb_printf(&c, "drop=10-%s\n[S]\nk=10-%s\n", tag, tag); b_mkfile(t->dir, "usr/etc/app.cfg.d/10-a.cfg", c.s); sb_reset(&c);
+      sb_printf(&c, "drop=20-%s\nextra=%s\n", tag, tag); b_mkfile(t->dir, "etc/app.cfg.d/20-b.cfg", c.s); sb_reset(&c);
+      sb_printf(&c, "where=DECOY\ndecoy=1\n"); b_mkfile(t->dir, "etc/app.d/30-c.cfg", c.s);
+    }
+    sb_free(&c);
   } else if (t->body == 3) {
     sbuf c = {0};
     sb_printf(&c, "ok=%s\n[good]\nk=1\n[broken %s\nnever=1\n", tag, tag); b_mkfile(t->dir, "bad.conf", c.s); sb_free(&c);
@@ -124,6 +144,18 @@ static void body_run(tctx *t)
     LIB(rc = econf_readConfig(&kf, "proj", "/usr/lib", B_NAME[t->instance & 1], B_SFX[t->instance & 1], "=", "#")); sb_printf(&t->out, "readConfig rc=%d\n", (int)rc);
     if (!rc) b_dump(t, kf);
     for (int e = 0; e < 25; e += 6) { const char *msg; LIB(msg = econf_errString((econf_err)e)); sb_printf(&t->out, "err%d=%s\n", e, msg); }
+    break; }
+  case 4: {
+    if (!(t->instance & 1)) {
+      char opt[400]; snprintf(opt, sizeof opt, "ROOT_PREFIX=%s", t->dir);
+      LIB(rc = econf_newKeyFile_with_options(&kf, opt)); sb_printf(&t->out, "options rc=%d\n", (int)rc);
+      if (rc) break;
+      LIB(rc = econf_readConfig(&kf, "proj", "/usr/lib", NULL, "conf", "=", "#")); sb_printf(&t->out, "readConfig without a name rc=%d\n", (int)rc);
+    } else {
+      char d0[400], d1[400]; snprintf(d0, sizeof d0, "%s/usr/etc", t->dir); snprintf(d1, sizeof d1, "%s/etc", t->dir);
+      LIB(rc = econf_readDirs(&kf, d0, d1, "app", "cfg", "=", "#")); sb_printf(&t->out, "readDirs rc=%d\n", (int)rc);
+    }
+    if (!rc) b_dump(t, kf);
     break; }
   default: {
     snprintf(p, sizeof p, "%s/bad.conf", t->dir);
